@@ -3105,6 +3105,18 @@ def update_working_tree(
             if not validate_path(path, validate_path_element):
                 continue
 
+            try:
+                verify_leading_dirs(path, [], repo_path)
+            except InvalidPathError:
+                # A leading directory is a symlink, so whatever it leads to is
+                # not the tracked file: like git, treat the file as already
+                # gone and never remove anything through the link.
+                try:
+                    del index[path]
+                except KeyError:
+                    pass
+                continue
+
             full_path = _tree_to_fs_path(repo_path, path, tree_encoding)
             try:
                 delete_stat: os.stat_result | None = os.lstat(full_path)
